@@ -49,6 +49,7 @@ type request struct {
 	Default   string   `json:"default"`
 	Transform string   `json:"transform"`
 	Names     []string `json:"names"`
+	Src       string   `json:"src"`
 }
 
 func main() {
@@ -95,6 +96,9 @@ func handle(req *request) (resp interface{}) {
 	case "valuecheck":
 		ok, msg := wire.VerifValueCheck(req.Decls, req.Expr)
 		return map[string]interface{}{"ok": ok, "msg": msg}
+	case "renameprobe":
+		occs, scope, printed, msg := wire.VerifRenameProbe(req.Src, req.Name, req.Names)
+		return map[string]interface{}{"occs": occs, "scope": scope, "printed": printed, "msg": msg}
 	case "copyprobe":
 		return map[string]interface{}{"rows": wire.VerifCopyProbe(), "nodes": wire.VerifASTNodeTypes()}
 	case "keywords":
